@@ -6,16 +6,23 @@ CHECK = {
                  "(2) tables of three/four directly adjacent areas of every kind combination (reads crossing up to four chunks, fault at every chunk); "
                  "(3) re-initialisation histories: every ordered pair (thorough: also every triple) of register lists from a small family initialised "
                  "one after the other on the same area array, then every window; "
-                 "(4) a structured boundary family of large tables (65533..65544 registers, handles/addresses/lengths straddling 2^16)",
+                 "(4) a structured boundary family of large tables (65533..65544 registers, handles/addresses/lengths straddling 2^16); "
+                 "(5) the family of (1) and the tables of (2) once more at the top of the address space (last word of the table = 0xffffffff) x every "
+                 "(address,length) from one below the first area up to 0xffffffff with address+length <= 2^32",
     "rule": "a case is (table or history, operation, window[, fault position]): block read compared word by word with the flat model on an exact-size "
             "heap buffer (under a fired read fault only memory safety, storage purity and 'a reported success holds the stored words' are demanded), "
             "or iteration run under every script (never stop; k-th call returns -1/+1; large tables: first/last call) and compared with the list of "
-            "overlapping registers; every case is non-trivial except those of a history / large table whose (re-)initialisation is refused",
+            "overlapping registers; every case is non-trivial except those of a history / large table whose (re-)initialisation is refused; the reference forms every "
+            "exclusive end (address + length, register address + words, base + size) in 64 bits, so extents ending at 2^32 are represented exactly",
     "assumptions": ["tables from the small-scope family of harness/regfam.h (<= 3 areas, <= 5 registers, addresses 0..9), plus 320 tables of 3/4 adjacent areas "
                     "(each area callback-backed / memory-backed / not flagged readable / not flagged readable and without read function), plus a reduced family "
                     "at address shifts 0x7ffffffc and 0xfffffff5 (straddling 2^31, ending at 0xfffffffe)",
                     "callback results: -1/+1 at every position, +-2, +-256, +-65536, INT_MIN, INT_MAX at the first and last overlapping register",
-                    "ranges that wrap around the 32-bit address space are outside the statement and not generated",
+                    "top-of-address-space family: layouts A-D of regfam.h moved up so that the last word of the layout is 0xffffffff x memory-/callback-backed x LE/BE x "
+                    "every single register (5 types x every placement x 6 constraint kinds), register pairs (quick: adjacent or one word apart), the curated lists, every "
+                    "access-flag combination of the F2 part (readable / write-only areas in every position), plus the 320 tables of 3/4 adjacent areas ending at 0xffffffff; "
+                    "windows and iteration ranges: every (address, length) over the addresses from one below the first area up to 0xffffffff with address + length <= 2^32",
+                    "ranges that wrap around the 32-bit address space (address + length > 2^32) are outside the statement and not generated",
                     "re-initialisation histories keep the area array and replace the register list (unconstrained 16/32-bit registers; per area: none, "
                     "first word, every word, last word, 32-bit at the base); quick: pairs on layouts B, D, E with the three-filling menu",
                     "large tables: three shapes, areas memory-backed or callback-backed with computed words; windows start around address/handle 2^16 and the area edges",
@@ -25,12 +32,16 @@ CHECK = {
                     "building the harness with cflags -DC03_HYBRID_AREAS adds 19 such tables with the read function's answer as the model"],
     "harnesses": [{
         "name": "c03_blockread", "src": "harness/c03_blockread.c", "shape": "espace", "opt": "-O2",
-        "lib": ["src/registers/core.c"], "min_outcomes": 17,
+        "lib": ["src/registers/core.c"], "min_outcomes": 30,
         "require_outcomes": {"any": ["read-ok", "read-empty", "read-unmapped", "read-ok-with-unreadable", "read-ok-no-read-function", "iter-none", "iter-some", "iter-all",
                                      "fault-first-chunk", "fault-later-chunk",
                                      "reinit-read-ok", "reinit-read-unmapped", "reinit-iter-none", "reinit-iter-some", "reinit-iter-all",
                                      "reinit-iter-from-emptied-area",
                                      "big-read-ok", "big-read-ok-64k-words", "big-read-unmapped",
-                                     "big-iter-none", "big-iter-below-64k", "big-iter-across-64k", "big-iter-first-handle-from-64k"]},
+                                     "big-iter-none", "big-iter-below-64k", "big-iter-across-64k", "big-iter-first-handle-from-64k",
+                                     "top-read-empty", "top-read-ok", "top-read-ok-to-last-word", "top-read-unmapped",
+                                     "top-read-ok-with-unreadable", "top-read-ok-with-unreadable-to-last-word", "top-read-ok-no-read-function",
+                                     "top-fault-first-chunk", "top-fault-later-chunk",
+                                     "top-iter-none", "top-iter-some", "top-iter-some-to-last-word", "top-iter-all", "top-iter-all-to-last-word"]},
     }],
 }
